@@ -849,8 +849,8 @@ class Interp:
                 recv = b
             if isinstance(recv, Obj) and isinstance(recv.cls, M.ClassInfo) and f.attr not in recv.attrs:
                 m = self.model.find_method(recv.cls, f.attr)
-                if m is not None and not any(d in ('staticmethod', 'classmethod', 'property') for d in m.decorators):
-                    self._receiver = recv
+                if m is not None and not any(d in ('staticmethod', 'property') for d in m.decorators) and m.node.args.args:
+                    self._receiver = recv          # (a classmethod gets the object that stands for the class)
                     return m.node, True, m
         return None
 
@@ -924,8 +924,9 @@ class Interp:
         ckey = '__caller@%d' % len(self._inline_stack)
         cs.env[ckey] = s.env          # travels (and is forked) with the callee state: aliasing with caller locals is kept
         if receiver is not None:
-            cs.env['self'] = receiver
-            for k in [k for k in cs.env if k.startswith('self.') or k.startswith('self[')]:
+            first = node.args.args[0].arg if node.args.args else 'self'
+            cs.env[first] = receiver
+            for k in [k for k in cs.env if k.startswith(first + '.') or k.startswith(first + '[')]:
                 del cs.env[k]
         elif bound and 'self' in s.env and 'self' not in local:
             cs.env['self'] = s.env['self']
@@ -1594,6 +1595,14 @@ class Interp:
             if isinstance(rr, tuple) and rr[0] == 'assign' and isinstance(rr[2][-1], ast.Call) \
                and _text(rr[2][-1].func).endswith('NewType'):
                 return args[0]
+        if isinstance(fval, M.External) and fval.name.startswith('operator.') and all(is_concrete(a) for a in args) and not kwargs:
+            import operator as _operator
+            f = getattr(_operator, fval.name.split('.', 1)[1], None)
+            if callable(f):
+                try:
+                    return f(*args)
+                except Exception:
+                    return TOP
         # model classes -> instances
         if isinstance(fval, M.ClassInfo):
             if self.heap:
@@ -1602,6 +1611,8 @@ class Interp:
         if isinstance(fval, tuple) and len(fval) == 3 and fval[0] == 'boundmethod':
             _, recv, meth = fval
             return self._builtin_method(recv, meth, args, kwargs)
+        if isinstance(n.func, ast.Name) and n.func.id == 'dict' and 'dict' not in s.env and not args and kwargs:
+            return dict(kwargs)
         if isinstance(n.func, ast.Name) and n.func.id == 'len' and 'len' not in s.env and len(args) == 1 \
            and isinstance(args[0], (list, tuple, dict)) and not kwargs:
             return len(args[0])
